@@ -502,7 +502,7 @@ class Folder:
         j = 0
         take_method = False
         if len(methods) == 1:
-            lim = min(maxj, npath) if not ch.chance(1, 5) else maxj
+            lim = min(maxj, npath) if not ch.chance(1, 3) else maxj
             j = ch.n(lim + 1)
             m = next(iter(methods))
             if m is not None:
